@@ -66,7 +66,11 @@ def body(prog, args, mode="run"):
                     v = modular_vmap(lambda r: normal.sample(r, 1.0), in_axes=0)(a)
         elif k == "scan":
             a = jnp.atleast_1d(pick(st[1]))
-            v = jax.lax.scan(lambda c, x: (c + jnp.sum(x), c + jnp.sum(x) * 2.0), jnp.zeros(()), a)[1]
+            variant = st[2] if len(st) > 2 else "fwd"
+            if variant == "grad":  # differentiate through a scan inside the mapped function (its backward pass is a reverse scan)
+                v = jax.grad(lambda z: jnp.sum(jax.lax.scan(lambda c, x: (c * 0.5 + jnp.sum(jnp.sin(x)), c * jnp.sum(x)), jnp.ones(()), z)[1]))(a)
+            else:
+                v = jax.lax.scan(lambda c, x: (c * 0.9 + jnp.sum(x), c + jnp.sum(x) * 2.0), jnp.zeros(()), a, reverse=(variant == "rev"))[1]
         elif k == "cond":
             a = pick(st[1])
             v = jax.lax.cond(jnp.sum(a) > st[2], lambda z: jnp.sin(z), lambda z: z * 2.0 + 1.0, a)
@@ -152,7 +156,8 @@ def classify(case, ctx=None, n1=1500):
     samp = has_sampling(prog)
     T = tainted(prog, n_args)
     spec = "axes[" + ",".join("N" if a is None else str(a) for a in case["axes"]) + "]"
-    feat = sorted({st[0] for st in prog} | ({"sample_shape"} if any(st[0] == "sample" and st[3] for st in prog) else set()))
+    feat = sorted({st[0] for st in prog} | ({"sample_shape"} if any(st[0] == "sample" and st[3] for st in prog) else set())
+                  | {f"scan_{st[2]}" for st in prog if st[0] == "scan" and len(st) > 2 and st[2] != "fwd"})
     K = "|" + "+".join(sorted(set(feat) | ({"axis_nonzero"} if any(a not in (None, 0) for a in case["axes"]) else set()) | ({"axis_none"} if None in case["axes"] else set())))
     fails, info = [], {"in_axes": spec, "features": feat, "sampling": samp}
 
@@ -266,7 +271,7 @@ def cases():
         st.tuples(st.just("sample"), i, i, st.sampled_from([[], [], [2], [3], [2, 2]])).map(list),
         st.tuples(st.just("sample"), i, i, st.just([])).map(list),
         st.tuples(st.just("inner_vmap"), i, st.booleans()).map(list),
-        st.tuples(st.just("scan"), i).map(list),
+        st.tuples(st.just("scan"), i, st.sampled_from(["fwd", "rev", "rev", "grad"])).map(list),
         st.tuples(st.just("cond"), i, st.sampled_from([-0.5, 0.0, 0.5])).map(list),
     )
 
